@@ -45,6 +45,7 @@ impl C15 {
             extra.push('ẞ');
             let k = tier.pick(5, 6);
             sets.push((l, format!("F4+İẞ<={}", k), extra, 0, k));
+            sets.push((l, format!("exotic28<={}", tier.pick(3, 4)), exotic(), 0, if n >= 6 { tier.pick(3, 4) } else { 3 }));
         }
         let inv = LANGS.iter().map(|l| with_lang(*l, |lang| compose_inventory(lang))).collect();
         C15 { sets, inv }
